@@ -96,3 +96,31 @@ fn classify_str(m: &str) -> &'static str {
     else if m.starts_with("invalid Unicode escape sequence") { "invalidUnicode" }
     else { "other" }
 }
+
+/// Stream `eval`: one fend expression per line (plain text, no newlines) evaluated in a fresh
+/// default context; prints `ok <main result>` or `err <message>` (newlines escaped).
+pub fn eval_line(l: &str) -> String {
+    let mut c = ctx();
+    let int = Counting::never();
+    match guarded(|| fend_core::evaluate_with_interrupt(l, &mut c, &int)) {
+        Ok(Ok(v)) => format!("ok {}", v.get_main_result().replace('\n', "\\n")),
+        Ok(Err(e)) => format!("err {}", e.replace('\n', "\\n")),
+        Err(p) => format!("panic {}", p.replace('\n', "\\n")),
+    }
+}
+
+/// Stream `evalctx`: statements separated by ` ;; ` evaluated left to right in ONE context;
+/// prints the results joined by ` ;; `.
+pub fn evalctx_line(l: &str) -> String {
+    let mut c = ctx();
+    let int = Counting::never();
+    let mut outs = Vec::new();
+    for stmt in l.split(" ;; ") {
+        outs.push(match guarded(|| fend_core::evaluate_with_interrupt(stmt, &mut c, &int)) {
+            Ok(Ok(v)) => format!("ok {}", v.get_main_result().replace('\n', "\\n")),
+            Ok(Err(e)) => format!("err {}", e.replace('\n', "\\n")),
+            Err(p) => format!("panic {}", p.replace('\n', "\\n")),
+        });
+    }
+    outs.join(" ;; ")
+}
